@@ -316,4 +316,206 @@ theorem quatIntegrate_zero_scale (q : Quat) (vel : Vec3) (h : normSq4 q = 1) :
     Real.sin_zero, Prod.mk.injEq]
   refine ⟨?_, ?_, ?_, ?_⟩ <;> ring
 
+/-! ### poses (position, unit quaternion): a group acting on vectors -/
+
+/-- for unit quaternions `mju_mulPose` composes exactly: its `mju_normalize4` call sees norm 1 and leaves
+    the product unchanged -/
+theorem mulPose_unit (A B : Pose) (ha : normSq4 (poseQuat A) = 1) (hb : normSq4 (poseQuat B) = 1) :
+    mulPose A B = mkPose (vadd (rotVecQuat (posePos B) (poseQuat A)) (posePos A))
+      (mulQuat (poseQuat A) (poseQuat B)) := by
+  have hab : normSq4 (mulQuat (poseQuat A) (poseQuat B)) = 1 := by rw [mulQuat_normSq, ha, hb, mul_one]
+  rw [mulPose_eq, normalize4_of_unit _ hab]
+
+/-- closure: the composed pose carries a unit quaternion again -/
+theorem mulPose_quat_unit (A B : Pose) (ha : normSq4 (poseQuat A) = 1) (hb : normSq4 (poseQuat B) = 1) :
+    normSq4 (poseQuat (mulPose A B)) = 1 := by
+  rw [mulPose_unit A B ha hb, poseQuat_mkPose, mulQuat_normSq, ha, hb, mul_one]
+
+theorem negPose_quat_unit (P : Pose) (h : normSq4 (poseQuat P) = 1) : normSq4 (poseQuat (negPose P)) = 1 := by
+  rw [negPose_eq, poseQuat_mkPose, negQuat_normSq, h]
+
+theorem poseOne_quat_unit : normSq4 (poseQuat poseOne) = 1 := by
+  simp [poseOne, poseQuat, normSq4]
+
+/-- `mju_negPose` is the two-sided inverse for `mju_mulPose` -/
+theorem mulPose_negPose (P : Pose) (h : normSq4 (poseQuat P) = 1) :
+    mulPose P (negPose P) = poseOne ∧ mulPose (negPose P) P = poseOne := by
+  have hn := negPose_quat_unit P h
+  constructor
+  · rw [mulPose_unit P _ h hn, negPose_eq, poseQuat_mkPose, posePos_mkPose, rotVecQuat_vneg,
+      (rotVecQuat_negQuat _ _ h).2, vneg_vadd3, (negQuat_inverse _ h).1]
+    rfl
+  · rw [mulPose_unit _ P hn h, negPose_eq, poseQuat_mkPose, posePos_mkPose, vadd3_vneg,
+      (negQuat_inverse _ h).2]
+    rfl
+
+theorem mulPose_one_left (P : Pose) (h : normSq4 (poseQuat P) = 1) : mulPose poseOne P = P := by
+  rw [mulPose_unit _ _ poseOne_quat_unit h]
+  have e1 : poseQuat poseOne = quatOne := rfl
+  have e2 : posePos poseOne = (0, 0, 0) := rfl
+  rw [e1, e2, rotVecQuat_one, vadd3_zero, mulQuat_one_left]
+  rfl
+
+theorem mulPose_one_right (P : Pose) (h : normSq4 (poseQuat P) = 1) : mulPose P poseOne = P := by
+  rw [mulPose_unit _ _ h poseOne_quat_unit]
+  have e1 : poseQuat poseOne = quatOne := rfl
+  have e2 : posePos poseOne = (0, 0, 0) := rfl
+  have e3 : rotVecQuat (0, 0, 0) (poseQuat P) = (0, 0, 0) := by
+    obtain ⟨p0, p1, p2, q0, q1, q2, q3⟩ := P
+    simp only [rotVecQuat, poseQuat, mju_rotVecQuat_eq, rotF, Prod.mk.injEq]
+    refine ⟨?_, ?_, ?_⟩ <;> ring
+  rw [e1, e2, e3, zero_vadd3, mulQuat_one_right]
+  rfl
+
+theorem mulPose_assoc (A B C : Pose) (ha : normSq4 (poseQuat A) = 1) (hb : normSq4 (poseQuat B) = 1)
+    (hc : normSq4 (poseQuat C) = 1) : mulPose (mulPose A B) C = mulPose A (mulPose B C) := by
+  have hab := mulPose_quat_unit A B ha hb
+  have hbc := mulPose_quat_unit B C hb hc
+  rw [mulPose_unit _ C hab hc, mulPose_unit A _ ha hbc, mulPose_unit A B ha hb, mulPose_unit B C hb hc]
+  simp only [poseQuat_mkPose, posePos_mkPose]
+  rw [rotVecQuat_mulQuat _ _ _ ha hb, rotVecQuat_vadd, mulQuat_assoc, vadd3_assoc]
+
+/-- the action of a composed pose is the composition of the actions -/
+theorem trnVecPose_mulPose (A B : Pose) (v : Vec3) (ha : normSq4 (poseQuat A) = 1)
+    (hb : normSq4 (poseQuat B) = 1) : trnVecPose (mulPose A B) v = trnVecPose A (trnVecPose B v) := by
+  rw [mulPose_unit A B ha hb, trnVecPose_eq, trnVecPose_eq, trnVecPose_eq]
+  simp only [poseQuat_mkPose, posePos_mkPose]
+  rw [rotVecQuat_mulQuat _ _ _ ha hb, rotVecQuat_vadd, vadd3_assoc]
+
+theorem trnVecPose_one (v : Vec3) : trnVecPose poseOne v = v := by
+  rw [trnVecPose_eq]
+  have e1 : poseQuat poseOne = quatOne := rfl
+  have e2 : posePos poseOne = (0, 0, 0) := rfl
+  rw [e1, e2, rotVecQuat_one, vadd3_zero]
+
+/-- the inverse pose undoes the transformation -/
+theorem trnVecPose_negPose (P : Pose) (v : Vec3) (h : normSq4 (poseQuat P) = 1) :
+    trnVecPose (negPose P) (trnVecPose P v) = v ∧ trnVecPose P (trnVecPose (negPose P) v) = v := by
+  have hn := negPose_quat_unit P h
+  constructor
+  · rw [← trnVecPose_mulPose _ _ _ hn h, (mulPose_negPose P h).2, trnVecPose_one]
+  · rw [← trnVecPose_mulPose _ _ _ h hn, (mulPose_negPose P h).1, trnVecPose_one]
+
+example : normSq4 (poseQuat ((1 : ℝ), (2 : ℝ), (3 : ℝ), (0 : ℝ), (3/5 : ℝ), (0 : ℝ), (4/5 : ℝ))) = 1 := by
+  simp only [poseQuat, normSq4]; norm_num
+
+/-! ### matrix → quaternion (stage 2) -/
+
+/-- `mju_mat2Quat (mju_quat2Mat q) = ±q` for every unit quaternion: in each of the four branches of
+    `mju_mat2Quat` (largest of q0, q1, q2, q3 by the trace/diagonal tests) the selected component is non-zero,
+    the square root recovers its absolute value, the divisions recover the other components with the sign of
+    the selected one, and the final `mju_normalize4` sees a unit vector and leaves it unchanged. -/
+theorem mat2Quat_quat2Mat (q : Quat) (hq : normSq4 q = 1) :
+    mat2Quat (quat2Mat q) = q ∨ mat2Quat (quat2Mat q) = quatNeg q := by
+  obtain ⟨q0, q1, q2, q3⟩ := q
+  have h : q0*q0 + q1*q1 + q2*q2 + q3*q3 = 1 := by simpa only [normSq4] using hq
+  have hn := neg_unit q0 q1 q2 q3 h
+  simp only [mat2Quat, quat2Mat, mju_quat2Mat_eq, matF, quatNeg]
+  simp only [mju_mat2Quat, real_ofInt, real_sqrt, ofSci_half, ofSci_quarter, decide_eq_true_eq, real_lt_iff, Bool.decide_and, Bool.and_eq_true]
+  push_cast
+  split_ifs with h1 h2 h3
+  · have hx : q0 ≠ 0 := by
+      rintro rfl
+      nlinarith [mul_self_nonneg q1, mul_self_nonneg q2, mul_self_nonneg q3]
+    rcases lt_or_gt_of_ne hx with hneg | hpos
+    · right
+      rw [pivot_neg q0 _ (by linear_combination (-1 : ℝ) * h) hneg]
+      have e1 : 1 / 4 * (2 * (q2 * q3 + q0 * q1) - 2 * (q2 * q3 - q0 * q1)) / (-q0) = -q1 := by
+        field_simp; ring
+      have e2 : 1 / 4 * (2 * (q1 * q3 + q0 * q2) - 2 * (q1 * q3 - q0 * q2)) / (-q0) = -q2 := by
+        field_simp; ring
+      have e3 : 1 / 4 * (2 * (q1 * q2 + q0 * q3) - 2 * (q1 * q2 - q0 * q3)) / (-q0) = -q3 := by
+        field_simp; ring
+      rw [e1, e2, e3, mju_normalize4_of_unit _ _ _ _ hn]
+    · left
+      rw [pivot_pos q0 _ (by linear_combination (-1 : ℝ) * h) hpos]
+      have e1 : 1 / 4 * (2 * (q2 * q3 + q0 * q1) - 2 * (q2 * q3 - q0 * q1)) / q0 = q1 := by
+        field_simp; ring
+      have e2 : 1 / 4 * (2 * (q1 * q3 + q0 * q2) - 2 * (q1 * q3 - q0 * q2)) / q0 = q2 := by
+        field_simp; ring
+      have e3 : 1 / 4 * (2 * (q1 * q2 + q0 * q3) - 2 * (q1 * q2 - q0 * q3)) / q0 = q3 := by
+        field_simp; ring
+      rw [e1, e2, e3, mju_normalize4_of_unit _ _ _ _ h]
+  · have hx : q1 ≠ 0 := by
+      rintro rfl
+      nlinarith [mul_self_nonneg q2, h2.1]
+    rcases lt_or_gt_of_ne hx with hneg | hpos
+    · right
+      rw [pivot_neg q1 _ (by linear_combination (-1 : ℝ) * h) hneg]
+      have e0 : 1 / 4 * (2 * (q2 * q3 + q0 * q1) - 2 * (q2 * q3 - q0 * q1)) / (-q1) = -q0 := by
+        field_simp; ring
+      have e1 : 1 / 4 * (2 * (q1 * q2 - q0 * q3) + 2 * (q1 * q2 + q0 * q3)) / (-q1) = -q2 := by
+        field_simp; ring
+      have e2 : 1 / 4 * (2 * (q1 * q3 + q0 * q2) + 2 * (q1 * q3 - q0 * q2)) / (-q1) = -q3 := by
+        field_simp; ring
+      rw [e0, e1, e2, mju_normalize4_of_unit _ _ _ _ hn]
+    · left
+      rw [pivot_pos q1 _ (by linear_combination (-1 : ℝ) * h) hpos]
+      have e0 : 1 / 4 * (2 * (q2 * q3 + q0 * q1) - 2 * (q2 * q3 - q0 * q1)) / q1 = q0 := by
+        field_simp; ring
+      have e1 : 1 / 4 * (2 * (q1 * q2 - q0 * q3) + 2 * (q1 * q2 + q0 * q3)) / q1 = q2 := by
+        field_simp; ring
+      have e2 : 1 / 4 * (2 * (q1 * q3 + q0 * q2) + 2 * (q1 * q3 - q0 * q2)) / q1 = q3 := by
+        field_simp; ring
+      rw [e0, e1, e2, mju_normalize4_of_unit _ _ _ _ h]
+  · have hx : q2 ≠ 0 := by
+      rintro rfl
+      nlinarith [mul_self_nonneg q3, h3]
+    rcases lt_or_gt_of_ne hx with hneg | hpos
+    · right
+      rw [pivot_neg q2 _ (by linear_combination (-1 : ℝ) * h) hneg]
+      have e0 : 1 / 4 * (2 * (q1 * q3 + q0 * q2) - 2 * (q1 * q3 - q0 * q2)) / (-q2) = -q0 := by
+        field_simp; ring
+      have e1 : 1 / 4 * (2 * (q1 * q2 - q0 * q3) + 2 * (q1 * q2 + q0 * q3)) / (-q2) = -q1 := by
+        field_simp; ring
+      have e2 : 1 / 4 * (2 * (q2 * q3 - q0 * q1) + 2 * (q2 * q3 + q0 * q1)) / (-q2) = -q3 := by
+        field_simp; ring
+      rw [e0, e1, e2, mju_normalize4_of_unit _ _ _ _ hn]
+    · left
+      rw [pivot_pos q2 _ (by linear_combination (-1 : ℝ) * h) hpos]
+      have e0 : 1 / 4 * (2 * (q1 * q3 + q0 * q2) - 2 * (q1 * q3 - q0 * q2)) / q2 = q0 := by
+        field_simp; ring
+      have e1 : 1 / 4 * (2 * (q1 * q2 - q0 * q3) + 2 * (q1 * q2 + q0 * q3)) / q2 = q1 := by
+        field_simp; ring
+      have e2 : 1 / 4 * (2 * (q2 * q3 - q0 * q1) + 2 * (q2 * q3 + q0 * q1)) / q2 = q3 := by
+        field_simp; ring
+      rw [e0, e1, e2, mju_normalize4_of_unit _ _ _ _ h]
+  · have hx : q3 ≠ 0 := by
+      rintro rfl
+      have hq2 : q2 = 0 := by
+        have : q2 * q2 ≤ 0 := by nlinarith [not_lt.mp h3]
+        exact mul_self_eq_zero.mp (le_antisymm this (mul_self_nonneg q2))
+      subst hq2
+      apply h2
+      constructor <;> nlinarith [not_lt.mp h1, mul_self_nonneg q0, mul_self_nonneg q1]
+    rcases lt_or_gt_of_ne hx with hneg | hpos
+    · right
+      rw [pivot_neg q3 _ (by linear_combination (-1 : ℝ) * h) hneg]
+      have e0 : 1 / 4 * (2 * (q1 * q2 + q0 * q3) - 2 * (q1 * q2 - q0 * q3)) / (-q3) = -q0 := by
+        field_simp; ring
+      have e1 : 1 / 4 * (2 * (q1 * q3 + q0 * q2) + 2 * (q1 * q3 - q0 * q2)) / (-q3) = -q1 := by
+        field_simp; ring
+      have e2 : 1 / 4 * (2 * (q2 * q3 - q0 * q1) + 2 * (q2 * q3 + q0 * q1)) / (-q3) = -q2 := by
+        field_simp; ring
+      rw [e0, e1, e2, mju_normalize4_of_unit _ _ _ _ hn]
+    · left
+      rw [pivot_pos q3 _ (by linear_combination (-1 : ℝ) * h) hpos]
+      have e0 : 1 / 4 * (2 * (q1 * q2 + q0 * q3) - 2 * (q1 * q2 - q0 * q3)) / q3 = q0 := by
+        field_simp; ring
+      have e1 : 1 / 4 * (2 * (q1 * q3 + q0 * q2) + 2 * (q1 * q3 - q0 * q2)) / q3 = q1 := by
+        field_simp; ring
+      have e2 : 1 / 4 * (2 * (q2 * q3 - q0 * q1) + 2 * (q2 * q3 + q0 * q1)) / q3 = q2 := by
+        field_simp; ring
+      rw [e0, e1, e2, mju_normalize4_of_unit _ _ _ _ h]
+
+/-- round trip on rotation matrices: quat → mat → quat → mat is the identity (unit q) -/
+theorem quat2Mat_mat2Quat_quat2Mat (q : Quat) (hq : normSq4 q = 1) :
+    quat2Mat (mat2Quat (quat2Mat q)) = quat2Mat q := by
+  rcases mat2Quat_quat2Mat q hq with e | e
+  · rw [e]
+  · rw [e]
+    obtain ⟨q0, q1, q2, q3⟩ := q
+    simp only [quat2Mat, quatNeg, mju_quat2Mat_eq, matF, Prod.mk.injEq]
+    refine ⟨?_, ?_, ?_, ?_, ?_, ?_, ?_, ?_, ?_⟩ <;> ring
+
 end MjProof.C24
